@@ -12,6 +12,7 @@ import (
 // evalInclude processes a <template include="..."> tag with the given vars map.
 // Handles stack push/pop properly using defer to ensure cleanup even on error.
 func (v *Vue) evalInclude(ctx VueContext, node *html.Node, vars map[string]any, depth int) ([]*html.Node, error) {
+	verifPoint(vpIncludeEnter, depth, len(ctx.TemplateStack))
 	ctx.stack.Push(vars)
 	defer ctx.stack.Pop()
 
